@@ -61,6 +61,12 @@ pub open spec fn commit_cache_wf(o: OutputData) -> bool { (o.commit matches Some
 pub open spec fn store_wf(s: WalletState) -> bool {
     keys_wf(s) && forall|k: OutKey| #[trigger] s.outputs.dom().contains(k) ==> commit_cache_wf(s.outputs[k])
 }
+// A-log-amounts (assumption on stored log entries; a consequence of C01 for the entries the wallet itself writes): a debiting entry
+// debits at least its fee more than it credits
+pub open spec fn entry_amounts_ok(t: TxLogEntry) -> bool {
+    t.amount_credited >= t.amount_debited || t.amount_debited - t.amount_credited >= (match t.fee { Some(f) => f.raw & 0xFF_FFFF_FFFF, None => 0u64 })
+}
+pub open spec fn log_amounts_ok(s: WalletState) -> bool { forall|k: (Identifier, u32)| #[trigger] s.tx_log.dom().contains(k) ==> entry_amounts_ok(s.tx_log[k]) }
 // spec_child_id(parent, n) (prelude/ext.rs) is injective in n for a fixed parent of depth < 4
 pub proof fn lemma_child_id_injective(p: Identifier, a: u32, b: u32)
     requires spec_path_depth(p) < 4
